@@ -151,12 +151,31 @@ def with_timeout(seconds, func, *args):
     consuming CPU.  Both timers keep firing (every 0.1 s) after the first expiry: library code
     that swallows the exception (`except Exception: pass` inside a search loop) is interrupted
     again instead of running on unwatched.  The handler is disarmed before the timers are
-    cancelled, so a late signal cannot turn a finished case into a timeout."""
+    cancelled, so a late signal cannot turn a finished case into a timeout.
+    A timeout during which the calling thread itself used less than half of the budget (the
+    process time went to other threads, or the wall-clock backstop fired on a starved machine)
+    is not an observation of the code under test: the case is run once more under a wall-clock
+    budget of 60x before the timeout is reported."""
+    t_thread, t_wall = time.thread_time(), time.time()
+    try:
+        return _with_timeout(seconds, 20 * seconds, func, *args)
+    except CaseTimeout:
+        used = time.thread_time() - t_thread
+        if used >= 0.5 * seconds:
+            raise
+        SPURIOUS_TIMEOUTS.append((round(used, 2), round(time.time() - t_wall, 2), seconds))
+        return _with_timeout(60 * seconds, 60 * seconds, func, *args)
+
+
+SPURIOUS_TIMEOUTS = []
+
+
+def _with_timeout(cpu_seconds, wall_seconds, func, *args):
     old_p = signal.signal(signal.SIGPROF, _alarm)
     old_a = signal.signal(signal.SIGALRM, _alarm)
     _ARMED[0] += 1
-    signal.setitimer(signal.ITIMER_PROF, seconds, 0.1)
-    signal.setitimer(signal.ITIMER_REAL, 20 * seconds, 0.1)
+    signal.setitimer(signal.ITIMER_PROF, cpu_seconds, 0.1)
+    signal.setitimer(signal.ITIMER_REAL, wall_seconds, 0.1)
     try:
         return func(*args)
     finally:
